@@ -1,5 +1,18 @@
 import json,sys
 pid=sys.argv[1]
+round2 = len(sys.argv) > 2 and sys.argv[2] == 'round2'
+import glob, os
+avoid = ''
+names = ('m3', 'm4') if round2 else ('m1', 'm2')
+if round2:
+    prev = []
+    for d in sorted(glob.glob(f'/verif/seeded/{pid}-m*')):
+        try:
+            prev.append('- ' + json.load(open(d + '/meta.json')).get('summary', '')[:300])
+        except Exception:
+            pass
+    if prev:
+        avoid = 'Two mutants already exist for this property; produce changes of a DIFFERENT kind, in different functions if possible. The existing ones are:\n' + '\n'.join(prev) + '\n\n'
 for l in open('/verif/properties.jsonl'):
     p=json.loads(l)
     if p['id']==pid: break
@@ -16,9 +29,9 @@ Statement: {p['statement']}
 Quantified over: {p['quantifier']['text']}
 Code anchors: {', '.join(p['anchors']['files'])}
 
-Task: produce TWO DIFFERENT changes ("mutants") to the ExaBGP sources, each of which breaks this property while the code still imports and the existing test suite still passes. Each must be the kind of mistake a real developer could plausibly make (an off-by-one, a wrong comparison, a dropped state reset, a reordered pair of statements, a cache key that forgets one field, an early return, two sites that each look fine alone...). IMPORTANT: prefer changes that need something SPECIFIC to manifest - a particular interleaving or timing, a fault at a particular point, a multi-step sequence of operations, an unusual but legal input, a particular negotiated configuration - NOT changes that any ordinary session would expose immediately. Keep each change small (a few lines). Do not touch tests.
+{avoid}Task: produce TWO DIFFERENT changes ("mutants") to the ExaBGP sources, each of which breaks this property while the code still imports and the existing test suite still passes. Each must be the kind of mistake a real developer could plausibly make (an off-by-one, a wrong comparison, a dropped state reset, a reordered pair of statements, a cache key that forgets one field, an early return, two sites that each look fine alone...). IMPORTANT: prefer changes that need something SPECIFIC to manifest - a particular interleaving or timing, a fault at a particular point, a multi-step sequence of operations, an unusual but legal input, a particular negotiated configuration - NOT changes that any ordinary session would expose immediately. Keep each change small (a few lines). Do not touch tests.
 
-For each mutant N in (1, 2), create directory {wt}/OUT/mN/ containing:
+For each mutant N in ({names[0][1:]}, {names[1][1:]}), create directory {wt}/OUT/mN/ containing:
   - patch.diff : `git diff` of ONLY that mutant against the unmodified worktree (must apply with `git apply` to a clean checkout of the same commit);
   - demo.py (or demo_test.py): a small self-contained program/test that FAILS (non-zero exit) with the mutant applied and PASSES (exit 0) on the unmodified code, run as `PYTHONPATH=<tree>/src /venv/bin/python demo.py` ; it may call ExaBGP internals directly (e.g. drive OutgoingRIB, Connection.reader_async with a fake socket, Protocol, the API dispatcher...) - it does not need a real network;
   - meta.json : {{"property": "{p['id']}", "summary": "...what was changed...", "needs": "...what specific schedule/fault/sequence/input/config is needed for it to manifest...", "files": [...], "tests_run": "...command and result..."}}.
